@@ -244,15 +244,17 @@ def searchLabel (labels : List Nat) (c off size : Nat) : Option Nat :=
   if size > 1 && labels.getD off 0 == labelTerminator then indexFrom labels c (off + 1) (size - 1)
   else indexFrom labels c off size
 
-/-- `trie.Get` over the flat vectors; `fuel` bounds the number of levels walked -/
-def lget (f : Flat) : Nat → Nat → Key → Option Nat
+/-- `trie.Get` over the flat vectors; `fuel` bounds the number of levels walked; `eon` as in
+`TrieTree.getNode` -/
+def lget (eon : Bool) (f : Flat) : Nat → Nat → Key → Option Nat
   | 0, _, _ => none
   | fuel + 1, nodeID, key =>
     let pos := firstLabelPos f nodeID
     match stripPrefix (prefixOf f nodeID) key with
     | none => none
     | some [] =>
-      if f.labels.getD pos 0 == labelTerminator && !f.hasChild.getD pos false then
+      if f.labels.getD pos 0 == labelTerminator && !f.hasChild.getD pos false
+          && (!eon || !isEndOfNode f pos) then
         (if (suffixOf f pos).isEmpty then f.values[valuePos f pos]? else none)
       else none
     | some (c :: rest) =>
@@ -261,10 +263,10 @@ def lget (f : Flat) : Nat → Nat → Key → Option Nat
       | some p =>
         if !f.hasChild.getD p false then
           (if suffixOf f p == rest then f.values[valuePos f p]? else none)
-        else lget f fuel (childNodeID f p) rest
+        else lget eon f fuel (childNodeID f p) rest
 
 /-- `Get(key)` on the encoded trie -/
-def loudsGet (f : Flat) (key : Key) : Option Nat := lget f (f.height + 1) 0 key
+def loudsGet (eon : Bool) (f : Flat) (key : Key) : Option Nat := lget eon f (f.height + 1) 0 key
 
 /-- in-order walk over the flat vectors with the same position formulas the iterator uses
 (`firstLabelPos`, `nodeSize`, `childNodeID`, `valuePos`, `isEndOfNode`, prefix/suffix lookup);
